@@ -386,9 +386,104 @@ fn run_op(op: i64, data: &[u8], args: &[u64]) -> Result<Vec<i128>, String> {
                 }
                 out
             }
+
+            18 => {
+                use read_fonts::tables::glyf::{PointFlags, SimpleGlyph};
+                use read_fonts::types::Point;
+                let n = a(0);
+                let gb = simple_glyph_bytes(n, &data);
+                let g = SimpleGlyph::read(FontData::new(&gb)).unwrap();
+                assert!(g.num_points() == n, "num_points differs from the constructed glyph");
+                let mut pts = vec![Point::<i32>::default(); n];
+                let mut fl = vec![PointFlags::default(); n];
+                match g.read_points_fast(&mut pts, &mut fl) {
+                    Ok(()) => {
+                        let mut out = vec![0i128];
+                        for (p, f) in pts.iter().zip(&fl) {
+                            out.push(p.x as i128);
+                            out.push(p.y as i128);
+                            out.push(f.to_bits() as i128);
+                        }
+                        out
+                    }
+                    Err(e) => err_code(&e),
+                }
+            }
+            19 => {
+                use read_fonts::tables::glyf::SimpleGlyph;
+                let last = args[0] as i64;
+                let fuel = a(1);
+                let gb = simple_glyph_bytes((last + 1) as usize, &data);
+                let g = SimpleGlyph::read(FontData::new(&gb)).unwrap();
+                let items: Vec<_> = g.points().take(fuel).collect();
+                let mut out = vec![0i128, (items.len() < fuel) as i128];
+                for p in items {
+                    out.push(p.x as i128);
+                    out.push(p.y as i128);
+                    out.push(p.on_curve as i128);
+                }
+                out
+            }
+            20 => {
+                use read_fonts::tables::variations::PackedPointNumbers;
+                let fuel = a(0);
+                let (ppn, rest) = PackedPointNumbers::split_off_front(fd);
+                let mut out = vec![ppn.count() as i128, 0, rest.len() as i128];
+                let items: Vec<u16> = ppn.iter().take(fuel).collect();
+                out.push(0);
+                out.push((items.len() < fuel) as i128);
+                out.extend(items.iter().map(|v| *v as i128));
+                out
+            }
+            21 => {
+                use read_fonts::tables::variations::PackedDeltas;
+                let fuel = a(0);
+                let pd = PackedDeltas::consume_all(fd);
+                // `count` is crate-private: take it from the derived Debug output
+                let dbg = format!("{:?}", pd);
+                let count: i128 = dbg.rsplit("count: ").next().and_then(|t| t.trim_end_matches([' ', '}']).parse().ok()).expect("PackedDeltas Debug format changed");
+                let items: Vec<i32> = pd.iter().take(fuel).collect();
+                let mut out = vec![0i128, count, 0, (items.len() < fuel) as i128];
+                out.extend(items.iter().map(|v| *v as i128));
+                out
+            }
+            22 => {
+                use read_fonts::tables::cmap::{Cmap12, Cmap12IterLimits};
+                match Cmap12::read(fd) {
+                    Ok(t) => {
+                        let take = a(3);
+                        let items: Vec<(u32, GlyphId)> = if args[0] == 0 {
+                            t.iter().take(take).collect()
+                        } else {
+                            t.iter_with_limits(Cmap12IterLimits { max_char: args[1] as u32, glyph_count: args[2] as u32 }).take(take).collect()
+                        };
+                        let mut out = vec![0i128, t.groups().len() as i128, 0, (items.len() < take) as i128];
+                        for (c, g) in items {
+                            out.push(c as i128);
+                            out.push(g.to_u32() as i128);
+                        }
+                        out
+                    }
+                    Err(e) => err_code(&e),
+                }
+            }
             _ => unreachable!(),
         }
     })
+}
+
+/// a SimpleGlyph table with `n` points (one contour ending at n-1, or no contour), no instructions,
+/// and `glyph_data` as its flag/coordinate bytes
+fn simple_glyph_bytes(n: usize, glyph_data: &[u8]) -> Vec<u8> {
+    let mut v = vec![];
+    v.extend(be16(if n == 0 { 0 } else { 1 }));
+    v.extend([0u8; 8]);
+    if n > 0 {
+        v.extend(be16((n - 1) as u16));
+    }
+    v.extend(be16(0));
+    v.extend(glyph_data);
+    v
 }
 
 /// Implementation-only oracle for the core reader (the documented contract, computed independently in u128).
@@ -795,6 +890,112 @@ fn correspondence(rng: &mut Rng, cw: &mut CaseWriter, st: &mut Stats, thorough: 
         c.emit(15, &d2, &[0, 1, 2, 3, 7, 30, u64::MAX]);
         let d3: Vec<u8> = d.iter().enumerate().map(|(i, b)| if i % 6 < 2 { (i % 6) as u8 * (b % 3) } else { *b }).collect();
         c.emit(16, &d3, &[0, 1, 2, 3, 7, 30, 1 << 40]);
+    }
+
+    // --- round 2: glyf points, packed point numbers / deltas, cmap 12 iteration ---
+    for _ in 0..(500 * reps) {
+        let n = match rng.below(12) {
+            0 => 0,
+            1 => 1,
+            _ => 1 + rng.below(24),
+        } as usize;
+        let dl = rng.below(3 * n as u64 + 8) as usize;
+        let mut d = rng.bytes(dl);
+        // bias the leading (flag) bytes: repeat flag with small counts, short/same bits
+        for (i, b) in d.iter_mut().enumerate().take(n + 2) {
+            match rng.below(6) {
+                0 => *b = 0x08 | (*b & 0x37),
+                1 => *b = *b & 0x37,
+                2 => *b = 0x36 | (*b & 0x01),
+                3 => *b = (rng.below(5)) as u8,
+                _ => {}
+            }
+            let _ = i;
+        }
+        c.emit(18, &d, &[n as u64]);
+        c.emit(19, &d, &[(n as i64 - 1) as u64, 40]);
+    }
+    for (n, dl) in [(65536usize, 0usize), (65536, 3), (65535, 5), (300, 4), (256, 2), (257, 2), (255, 2)] {
+        let mut d = vec![0x39u8, 0xFF, 0x39, 0xFF, 0x31];
+        d.truncate(dl);
+        c.emit(18, &d, &[n as u64]);
+        c.emit(19, &d, &[(n as i64 - 1) as u64, 600]);
+    }
+    for _ in 0..(400 * reps) {
+        let dl = rng.below(28) as usize;
+        let mut d = rng.bytes(dl);
+        if !d.is_empty() {
+            d[0] = match rng.below(8) {
+                0 => 0,
+                1 => 0x80,
+                2 => 0x81,
+                3 => 0xFF,
+                _ => rng.below(12) as u8,
+            };
+            for b in d.iter_mut().skip(1) {
+                if rng.chance(1, 3) {
+                    *b &= 0x83;
+                }
+            }
+        }
+        c.emit(20, &d, &[300]);
+        let mut d2 = rng.bytes(dl);
+        for b in d2.iter_mut() {
+            if rng.chance(1, 2) {
+                *b &= 0xC7;
+            }
+        }
+        c.emit(21, &d2, &[500]);
+    }
+    for _ in 0..(400 * reps) {
+        let k = rng.below(6) as usize;
+        let declared: u32 = match rng.below(8) {
+            0 => k as u32 + 1,
+            1 => 0xFFFF_FFFF,
+            2 => 0x1555_5556,
+            _ => k as u32,
+        };
+        let mut d = vec![];
+        d.extend(be16(12));
+        d.extend(be16(0));
+        d.extend(be32(16 + 12 * k as u32));
+        d.extend(be32(0));
+        d.extend(be32(declared));
+        let mut prev_end = 0u32;
+        for _ in 0..k {
+            let s: u32 = match rng.below(8) {
+                0 => 0,
+                1 => prev_end,
+                2 => prev_end.wrapping_sub(rng.below(10) as u32),
+                3 => 0xFFFF_FFF0 + rng.below(16) as u32,
+                4 => 0x10FFF0 + rng.below(32) as u32,
+                _ => prev_end.wrapping_add(rng.below(20) as u32),
+            };
+            let e: u32 = match rng.below(8) {
+                0 => s.wrapping_sub(1),
+                1 => 0xFFFF_FFFF,
+                2 => s,
+                _ => s.wrapping_add(rng.below(30) as u32),
+            };
+            let g: u32 = match rng.below(6) {
+                0 => 0xFFFF_FFFF,
+                1 => 0xFFF0,
+                _ => rng.below(40) as u32,
+            };
+            d.extend(be32(s));
+            d.extend(be32(e));
+            d.extend(be32(g));
+            prev_end = e;
+        }
+        if rng.chance(1, 6) {
+            let t = rng.below(d.len() as u64 + 1) as usize;
+            d.truncate(t);
+        }
+        let take = 400;
+        c.emit(22, &d, &[0, 0, 0, take]);
+        let mc = *rng.pick(&[0x10FFFFu64, 50, 0, 0xFFFF_FFFF]);
+        let gc = *rng.pick(&[0u64, 10, 35, 65535, 0xFFFF_FFFF]);
+        c.emit(22, &d, &[1, mc, gc, take]);
     }
 }
 
@@ -1962,9 +2163,9 @@ fn main() {
     let mut st = Stats::new();
     let mut cw = CaseWriter::new(
         &dir,
-        "From Coq Require Import ZArith List. Import ListNotations. Open Scope Z_scope.\nFrom FV Require Import Lib.Cases C01.Model.",
+        "From Coq Require Import ZArith List. Import ListNotations. Open Scope Z_scope.\nFrom FV Require Import Lib.Cases C01.Model C01.ModelH.",
         "Z * list Z * list Z * list Z",
-        "check_case",
+        "check_case_all",
         900,
     );
     correspondence(&mut rng, &mut cw, &mut st, thorough);
